@@ -599,8 +599,9 @@ def run(ck):
 
 PARTIAL = [
     "fnmatch_sound_complete is about the reference matcher (tokenize + refMatch) for flag sets without FNM_PERIOD; "
-    "the single-retry wfnmatch loop and match_class are mirrored (wfn, classLoop) and compared, not proved equal; "
-    "with FNM_PERIOD the specification IS the mirror of the code",
+    "for the mirror of the code's loop (wfn) soundness (match reported => declarative match, all flags) and the "
+    "bracket walk (match_class = parse + membership) are proved; completeness of the single-retry loop is compared "
+    "on every run, not proved; with FNM_PERIOD the specification IS the mirror of the code",
     "timegm, getline, mbsnrtowcs, asprintf depend on libc services that are parameters of the models "
     "(mktime, getc, mbrtowc, vsnprintf); their behaviour is assumed as modelled",
     "pton6: result shape + full round trip pton6(ntop6 a) = a proved; no theorem about the complete input "
